@@ -849,6 +849,20 @@ AUDIO = b"\xff\xfb\x90\x64" + bytes(range(1, 200)) * 2
 EXISTING = {"empty": b"", "audio": AUDIO, "audio+v1": AUDIO + OLD_V1}
 
 
+def v1_block(title="", artist="", album="", year="", comment="", track=0, genre=255):
+    pad = lambda x, n: x.encode("latin-1").ljust(n, b"\0")
+    b = b"TAG" + pad(title, 30) + pad(artist, 30) + pad(album, 30) + pad(year, 4) + pad(comment, 28) + b"\0" + bytes([track, genre])
+    assert len(b) == 128
+    return b
+
+
+# ID3v1 blocks of every degree of blankness (what save(v1=2) of an empty tag, or another tagger, leaves behind)
+V1_BLANKISH = {"blank": v1_block(), "year": v1_block(year="1987"), "comment": v1_block(comment="v1 comment"), "track": v1_block(track=9), "genre0": v1_block(genre=0)}
+for _k, _b in V1_BLANKISH.items():
+    EXISTING["audio+v1" + _k] = AUDIO + _b
+EX_V1 = ["audio+v1" + _k for _k in V1_BLANKISH]
+
+
 def _viol(ctx, what, cls, data):
     d = dict(data)
     d["class"] = cls
@@ -1048,9 +1062,14 @@ def oracle_case(ctx, case_seed, v2, sep, v1, existing):
     # ID3v1
     size = w["size"]
     tail = raw[size:]
-    had = existing == "audio+v1"
+    had = existing.startswith("audio+v1")
+    if len(tail) < len(EXISTING[existing][:len(AUDIO)]) or not tail.startswith(EXISTING[existing][:len(AUDIO)]):
+        viol("the content behind the tag is not the audio that was there", "audio-changed")
     if v1 == 2 or (v1 == 1 and had):
-        check_v1_block(ctx, viol, tail[-128:], meta, mem_first, v2)
+        if len(tail) != len(AUDIO if existing != "empty" else b"") + 128:
+            viol("no 128-byte ID3v1 block at the end of the file", "v1-missing")
+        else:
+            check_v1_block(ctx, viol, tail[-128:], meta, mem_first, v2)
     elif len(tail) >= 128 and tail[-128:-125] == b"TAG":
         viol("an ID3v1 block is present although v1=%d %s" % (v1, "with" if had else "without an existing block"), "v1-unwanted")
     return len(ctx.violations) - before
@@ -1201,6 +1220,12 @@ def oracle_history(ctx, case_seed, mode, sep, v1, existing):
                 dec = _decode_save(viol, rawn, v2, "the last v2.%d save of the history" % v2)
                 if dec is not None:
                     check_level(ctx, viol, dec, meta, v2, sep, " (last save of the history)")
+                want_v1 = v1 == 2 or (v1 == 1 and existing.startswith("audio+v1"))
+                for what, r in (("first", raw1), ("last", rawn)):
+                    if (r[-128:-125] == b"TAG") != want_v1:
+                        viol("after the %s save of the history with v1=%d an ID3v1 block is %s (the file %s one before)" % (
+                            what, v1, "missing" if want_v1 else "present", "had" if existing.startswith("audio+v1") else "had not"), "v1-presence")
+                        break
         elif mode == "copy-restore":
             # the pattern EasyID3.save(v2_version=3) uses on its v2.4 frames: shallow copy, convert, save, restore
             t = build_tag(desc)
@@ -1354,42 +1379,43 @@ def hand_frames(info, ver):
 
 
 V1SRC = [y + "-" + f for y in ("same", "diff", "none") for f in ("filled", "blank")]
+V1SRC_BLANKISH = ["none-blank", "only-year", "only-comment", "only-track", "only-genre0"]      # "none-blank" = TAG + 124 NULs + genre 255
 HAND_LOADS = ("explicit", "default", "v2ver")
 V1_FILLED = {"title": "v1 title", "artist": "v1 artist", "album": "v1 album", "comment": "v1 comment", "track": 9, "genre": 12}
 
 
 def hand_v1_block(info, v1src):
     """the ID3v1 block appended to the source file: year equal to / different from the v2 year / absent; other fields filled (all different
-    from the v2 tag) or blank. -> (128 bytes, year text or None)"""
+    from the v2 tag) or blank; or a block with a single field (year / comment / track / genre 0). -> (128 bytes, year text or None, comment or None)"""
     ykind, fkind = v1src.split("-")
+    if ykind == "only":
+        fl = {"year": "%04d" % (info["y"] % 9998 + 1)} if fkind == "year" else {"comment": V1_FILLED["comment"]} if fkind == "comment" else \
+            {"track": 9} if fkind == "track" else {"genre": 0}
+        return v1_block(**fl), fl.get("year"), fl.get("comment")
     year = {"same": "%04d" % info["y"], "diff": "%04d" % (info["y"] % 9998 + 1), "none": None}[ykind]
-    fl = V1_FILLED if fkind == "filled" else {"title": "", "artist": "", "album": "", "comment": "", "track": 0, "genre": 255}
-    pad = lambda s, n: s.encode("latin-1").ljust(n, b"\0")
-    blk = b"TAG" + pad(fl["title"], 30) + pad(fl["artist"], 30) + pad(fl["album"], 30) + pad(year or "", 4) + pad(fl["comment"], 28) + b"\0" + bytes([fl["track"], fl["genre"]])
-    assert len(blk) == 128
-    return blk, year
+    fl = dict(V1_FILLED) if fkind == "filled" else {}
+    return v1_block(year=year or "", **fl), year, fl.get("comment")
 
 
-def oracle_hand(ctx, case_seed, src, dst, v1src=None, load="explicit"):
+def oracle_hand(ctx, case_seed, src, dst, v1src=None, load="explicit", v1opt=2):
     """a hand-built v2.<src> tag (optionally followed by an ID3v1 block) is loaded -- load='explicit': ID3(f, v2_version=dst, load_v1=False);
     'default': ID3(f) with every default, then update_to_v23() for a v2.3 target; 'v2ver': ID3(f, v2_version=dst) -- and saved as v2.<dst>;
     the raw result is decoded independently. The v2 tag has precedence over the ID3v1 block for every field it carries."""
     I = M()[0]
     before = len(ctx.violations)
     info = hand_case(random.Random(case_seed))
-    data = {"hand_seed": case_seed, "hand": desc_json(_info_json(info)), "src": src, "dst": dst, "v1src": v1src, "load": load}
+    data = {"hand_seed": case_seed, "hand": desc_json(_info_json(info)), "src": src, "dst": dst, "v1src": v1src, "load": load, "v1opt": v1opt}
     viol = lambda what, cls: _viol(ctx, what, cls, data)
     raw0 = {2: build_v22, 3: build_v23, 4: build_v24}[src](hand_frames(info, src)) + AUDIO
-    v1year, v1filled = None, False
+    v1year, v1comment = None, None
     if v1src is not None:
-        blk0, v1year = hand_v1_block(info, v1src)
-        v1filled = v1src.endswith("filled")
+        blk0, v1year, v1comment = hand_v1_block(info, v1src)
         raw0 += blk0
     withv1 = " (source file ends with an ID3v1 block, year %s the v2 year)" % v1src.split("-")[0] if v1src else ""
     try:
         if load == "explicit":
             t = I.ID3(io.BytesIO(raw0), v2_version=dst, load_v1=False)
-            v1year, v1filled = None, False
+            v1year, v1comment = None, None
         elif load == "v2ver":
             t = I.ID3(io.BytesIO(raw0), v2_version=dst)
         else:
@@ -1397,14 +1423,14 @@ def oracle_hand(ctx, case_seed, src, dst, v1src=None, load="explicit"):
             if dst == 3:
                 t.update_to_v23()
         f = io.BytesIO(raw0)
-        t.save(f, v1=2, v2_version=dst, v23_sep="/")
+        t.save(f, v1=v1opt, v2_version=dst, v23_sep="/")
     except Exception as e:
         viol("loading a v2.%d tag and saving it as v2.%d failed: %s" % (src, dst, type(e).__name__) + withv1, "hand-failed")
         return 1
     raw = f.getvalue()
     ctx.oracle_cases += 1
     ctx.count("oracle:v2.%d->v2.%d%s" % (src, dst, "+v1" if v1src else ""))
-    ctx.case(("hand", case_seed, src, dst, v1src, load))
+    ctx.case(("hand", case_seed, src, dst, v1src, load, v1opt))
     try:
         w = W.id3v2_walk(raw)
         dec = {}
@@ -1471,9 +1497,21 @@ def oracle_hand(ctx, case_seed, src, dst, v1src=None, load="explicit"):
         if any(e not in (0, 1) for l in dec.values() for fr in l for e in encs_of(fr)):
             viol("v2.3 tag contains a text encoding other than Latin-1 / UTF-16", "encoding")
     # the ID3v1 block written alongside: the v2 fields (the year of the old block only when the v2 tag has none)
+    # v1=2: always there; v1=1 (update): there iff the source file had one -- however blank; v1=0: gone. Judged on what follows the tag.
+    tail = raw[w["size"]:]
+    want_v1 = v1opt == 2 or (v1opt == 1 and v1src is not None)
+    if not want_v1:
+        if tail != AUDIO:
+            viol("saved with v1=%d %s: the file does not end with the audio (%s)" % (
+                v1opt, "over a file with an ID3v1 block" if v1src else "over a file without an ID3v1 block",
+                "an ID3v1 block is present" if tail[-128:-125] == b"TAG" else "content changed"), "v1-unwanted")
+        return len(ctx.violations) - before
+    if len(tail) != len(AUDIO) + 128 or tail[:len(AUDIO)] != AUDIO or tail[-128:-125] != b"TAG":
+        viol("saved with v1=%d: no 128-byte ID3v1 block follows the audio%s" % (v1opt, withv1 and " although the source file ended with one (%s)" % v1src), "v1-missing")
+        return len(ctx.violations) - before
     blk = raw[-128:]
     year = "%04d" % info["y"] if hy else v1year
-    comments = [ref_latin1(info["comment"], 28) + b"\0"] + ([ref_latin1(V1_FILLED["comment"], 28) + b"\0"] if v1filled else [])
+    comments = [ref_latin1(info["comment"], 28) + b"\0"] + ([ref_latin1(v1comment, 28) + b"\0"] if v1comment else [])
     if blk[:3] != b"TAG" or blk[3:33] != ref_latin1(info["title"], 30) or blk[33:63] != ref_latin1(info["artist"], 30) or blk[63:93] != ref_latin1(info["album"], 30):
         viol("ID3v1 title/artist/album do not reflect the converted tag" + withv1, "v1-hand-text")
     elif blk[93:97] != (year.encode() if year else b"\0\0\0\0") or blk[126] != int(info["track"].split("/")[0]) or blk[127] != info["genre"]:
@@ -1563,19 +1601,22 @@ def oracle_sample(ctx, name):
 
 def direct_oracle(ctx, n_tags, n_hand):
     rng = ctx.rng
-    combos = [(v2, sep, v1, ex) for v2 in (3, 4) for sep in SEPS for v1 in (0, 1, 2) for ex in ("empty", "audio", "audio+v1")]
+    combos = [(v2, sep, v1, ex) for v2 in (3, 4) for sep in SEPS for v1 in (0, 1, 2) for ex in ["empty", "audio", "audio+v1"] + EX_V1]
     for k in range(n_tags):
         cs = rng.getrandbits(48)
         # every version x separator once per tag, ID3v1 option / existing content rotated; plus two random combinations
         todo = [(v2, sep, (k + j) % 3, ("empty", "audio", "audio+v1")[(k + 2 * j) % 3]) for j, (v2, sep) in enumerate((a, b) for a in (3, 4) for b in SEPS)
                 if v2 == 3 or sep == "/"]
         todo += [rng.choice(combos) for _ in range(2)]
+        # an existing ID3v1 block of every degree of blankness: update (v1=1) must rewrite it, 0 must remove it, 2 must write it -- both targets
+        todo += [((3, 4)[k % 2], "/", 1, EX_V1[k % len(EX_V1)]), ((4, 3)[k % 2], SEPS[k % len(SEPS)], 1, EX_V1[(k // 2 + 1) % len(EX_V1)]),
+                 ((3, 4)[(k // 2) % 2], "/", (0, 2)[k % 2], EX_V1[(k + 2) % len(EX_V1)])]
         for v2, sep, v1, ex in todo:
             if oracle_case(ctx, cs, v2, sep, v1, ex) and len(ctx.violations) > 40:
                 return
         # histories on the same object: every mode once per tag, separator / ID3v1 option / existing content rotated
         for j, mode in enumerate(HIST_MODES):
-            if oracle_history(ctx, cs, mode, SEPS[(k + j) % len(SEPS)], (0, 2, 1)[(k + j) % 3], ("audio", "empty", "audio+v1")[(k // 2 + j) % 3]) and len(ctx.violations) > 40:
+            if oracle_history(ctx, cs, mode, SEPS[(k + j) % len(SEPS)], (0, 2, 1)[(k + j) % 3], (["audio", "empty", "audio+v1"] + EX_V1)[(k + 3 * j) % (3 + len(EX_V1))]) and len(ctx.violations) > 40:
                 return
     for k in range(n_hand):
         cs = rng.getrandbits(48)
@@ -1588,6 +1629,12 @@ def direct_oracle(ctx, n_tags, n_hand):
                     oracle_hand(ctx, cs, src, dst, v1src, "default")
                 for j in range(2):
                     oracle_hand(ctx, cs, src, dst, V1SRC[(k + a + 2 * b + 3 * j) % len(V1SRC)], "v2ver")
+                # the ID3v1 option: blocks of every degree of blankness must survive an update (v1=1) and reflect the v2 fields; 0 removes, 2 writes
+                for j, v1src in enumerate(V1SRC_BLANKISH):
+                    oracle_hand(ctx, cs, src, dst, v1src, "default", 1)
+                    oracle_hand(ctx, cs, src, dst, v1src, ("default", "v2ver")[(k + j) % 2], (0, 2)[(k + j + a) % 2])
+                oracle_hand(ctx, cs, src, dst, None, "default", (1, 0)[k % 2])
+                oracle_hand(ctx, cs, src, dst, V1SRC[(k + a) % len(V1SRC)], "default", (0, 1)[(k + b) % 2])
                 if len(ctx.violations) > 40:
                     return
     for name in SAMPLES:
@@ -1759,7 +1806,7 @@ def replay(ctx, payload):
     if "hist_seed" in d:
         return oracle_history(ctx, d["hist_seed"], d["mode"], d["sep"], d["v1"], d["existing"]) > 0
     if "hand_seed" in d:
-        return oracle_hand(ctx, d["hand_seed"], d["src"], d["dst"], d.get("v1src"), d.get("load", "explicit")) > 0
+        return oracle_hand(ctx, d["hand_seed"], d["src"], d["dst"], d.get("v1src"), d.get("load", "explicit"), d.get("v1opt", 2)) > 0
     if "sample" in d:
         return oracle_sample(ctx, d["sample"]) > 0
     direct_oracle(ctx, 0, 0)
